@@ -136,6 +136,8 @@ package transaction
 //@   requires ctx: typeis(arg1, "*state.CheckState") || typeis(arg1, "*state.State")
 //@   requires ctxcheck: typeis(arg1, "*state.CheckState") ==> as(arg1, "*state.CheckState") != nil
 //@   requires modules: st != nil && st.Accounts != nil && st.Coins != nil && st.Commission != nil && st.Checks != nil && st.Accounts.bus != nil && (deliver ==> st.Coins.bus != nil)
+//@   requires fundsmodule: st.FrozenFunds != nil && (deliver ==> st.FrozenFunds.bus != nil && st.FrozenFunds.bus == st.Accounts.bus)
+//@   requires stakemodules: st.Candidates != nil && st.Waitlist != nil && (deliver ==> st.Candidates.bus == st.Accounts.bus && st.Waitlist.bus == st.Accounts.bus)
 //@   # C27: the price handed to every Run is gas price x (type price + bytes x byte price) when the table is in the base coin
 //@   requires [C27] feeprice: tbl.Coin == 0 ==> arg4.val == arg0.GasPrice * (typePrice(recv, tbl) + (len(arg0.Payload) + len(arg0.ServiceData)) * tbl.PayloadByte.val)
 //@   requires feesign: arg4.val >= 0 && arg4 != arg2
@@ -144,11 +146,13 @@ package transaction
 //@   ensures [C27] rewarded: result.Code == 0 && deliver && txcc == 0 ==> arg2.val == old(arg2.val) + old(arg4.val)
 //@   ensures [C03] rejected: result.Code != 0 ==> bal == old(bal) && nonce == old(nonce) && ledgerDelta == old(ledgerDelta) && ledgerVolume == old(ledgerVolume) && coinVolume == old(coinVolume) && coinReserve == old(coinReserve) && swapAbs == old(swapAbs) && otherState == old(otherState) && arg2.val == old(arg2.val)
 //@   ensures [C03] checkonly: !deliver ==> bal == old(bal) && nonce == old(nonce) && ledgerDelta == old(ledgerDelta) && ledgerVolume == old(ledgerVolume) && coinVolume == old(coinVolume) && coinReserve == old(coinReserve) && swapAbs == old(swapAbs) && otherState == old(otherState) && arg2.val == old(arg2.val)
+//@   ensures [C03] rejectedfunds: result.Code != 0 || !deliver ==> ffModel == old(ffModel) && allof(frozenfunds.Model.List) == old(allof(frozenfunds.Model.List))
+//@   ensures [C03] rejectedstakes: result.Code != 0 || !deliver ==> stakeObj == old(stakeObj) && allof(candidates.stake.Value) == old(allof(candidates.stake.Value)) && wlItem == old(wlItem)
 //@   ensures [C04,C03] accepted: result.Code == 0 && deliver ==> nonce(accs, senderOf(arg0)) == arg0.Nonce
 //@   # C05: only the sender's own balances can go down (a check redemption also debits the check's issuer)
 //@   ensures [C05] onlysender: arg0.Type != TypeRedeemCheck ==> forall c types.CoinID, a types.Address :: a != senderOf(arg0) ==> bal(accs, c, a) >= old(bal(accs, c, a))
 //@   ensures [C03] rejectedchecks: result.Code != 0 || !deliver ==> forall h types.Hash :: (h in st.Checks.usedChecks) <==> old(h in st.Checks.usedChecks)
-//@   modifies bal, nonce, ledgerDelta, ledgerVolume, coinVolume, coinReserve, swapAbs, otherState, arg2.val, accountsCache, coinsCache, commissionCache, mapof(st.Checks.usedChecks)
+//@   modifies bal, nonce, ledgerDelta, ledgerVolume, coinVolume, coinReserve, swapAbs, otherState, arg2.val, accountsCache, coinsCache, commissionCache, mapof(st.Checks.usedChecks), ffModel, ffCache, ffDirtyMarks, frozenfunds.Model.List, stakeObj, candidates.stake.Value, candCache, candDirtyMarks, wlItem, wlCache
 
 //@ func (*ExecutorV3).RunTx
 //@   serves C04 C03 C26 C27 C05
@@ -158,8 +162,8 @@ package transaction
 //@   let accs = typeis(context, "*state.CheckState") ? as(context, "*state.CheckState").state.Accounts : as(context, "*state.State").Accounts
 //@   requires e != nil && rewardPool != nil && currentMempool != nil
 //@   requires typeis(context, "*state.CheckState") || typeis(context, "*state.State")
-//@   requires typeis(context, "*state.CheckState") ==> as(context, "*state.CheckState") != nil && as(context, "*state.CheckState").state != nil && as(context, "*state.CheckState").state.Accounts != nil && as(context, "*state.CheckState").state.Coins != nil && as(context, "*state.CheckState").state.Commission != nil && as(context, "*state.CheckState").state.Checks != nil && as(context, "*state.CheckState").state.Accounts.bus != nil
-//@   requires typeis(context, "*state.State") ==> as(context, "*state.State") != nil && as(context, "*state.State").Accounts != nil && as(context, "*state.State").Coins != nil && as(context, "*state.State").Commission != nil && as(context, "*state.State").Checks != nil && as(context, "*state.State").Accounts.bus != nil && as(context, "*state.State").Coins.bus != nil
+//@   requires typeis(context, "*state.CheckState") ==> as(context, "*state.CheckState") != nil && as(context, "*state.CheckState").state != nil && as(context, "*state.CheckState").state.Accounts != nil && as(context, "*state.CheckState").state.Coins != nil && as(context, "*state.CheckState").state.Commission != nil && as(context, "*state.CheckState").state.Checks != nil && as(context, "*state.CheckState").state.Accounts.bus != nil && as(context, "*state.CheckState").state.FrozenFunds != nil && as(context, "*state.CheckState").state.Candidates != nil && as(context, "*state.CheckState").state.Waitlist != nil
+//@   requires typeis(context, "*state.State") ==> as(context, "*state.State") != nil && as(context, "*state.State").Accounts != nil && as(context, "*state.State").Coins != nil && as(context, "*state.State").Commission != nil && as(context, "*state.State").Checks != nil && as(context, "*state.State").Accounts.bus != nil && as(context, "*state.State").Coins.bus != nil && as(context, "*state.State").FrozenFunds != nil && as(context, "*state.State").FrozenFunds.bus != nil && as(context, "*state.State").FrozenFunds.bus == as(context, "*state.State").Accounts.bus && as(context, "*state.State").Candidates != nil && as(context, "*state.State").Waitlist != nil && as(context, "*state.State").Candidates.bus == as(context, "*state.State").Accounts.bus && as(context, "*state.State").Waitlist.bus == as(context, "*state.State").Accounts.bus
 //@   requires nowrap: nonce(accs, snd) < 18446744073709551615
 //@   ensures [C04] chain: result.Code == 0 ==> tx.ChainID == types.CurrentChainID
 //@   ensures [C04] inorder: result.Code == 0 ==> tx.Nonce == old(nonce(accs, snd)) + 1
@@ -167,6 +171,8 @@ package transaction
 //@   ensures [C03] checkmode: !deliver ==> bal == old(bal) && nonce == old(nonce) && coinVolume == old(coinVolume) && coinReserve == old(coinReserve) && swapAbs == old(swapAbs) && otherState == old(otherState) && rewardPool.val == old(rewardPool.val)
 //@   let lateFailure = deliver && (tx.Type == TypeCreateCoin || tx.Type == TypeCreateToken) && nonce(accs, snd) == tx.Nonce
 //@   ensures [C03,C04] failednonce: result.Code != 0 ==> (nonce == old(nonce) && otherState == old(otherState)) || lateFailure
+//@   ensures [C03] failedfunds: result.Code != 0 || !deliver ==> (ffModel == old(ffModel) && allof(frozenfunds.Model.List) == old(allof(frozenfunds.Model.List))) || lateFailure
+//@   ensures [C03] failedstakes: result.Code != 0 || !deliver ==> (stakeObj == old(stakeObj) && allof(candidates.stake.Value) == old(allof(candidates.stake.Value)) && wlItem == old(wlItem)) || lateFailure
 //@   let cc = (tx.Type == TypeSellAllSwapPool || tx.Type == TypeSellAllCoin) ? dataCoin(tx.decodedData) : tx.GasCoin
 //@   ensures [C03] failedbalances: result.Code != 0 ==> select(bal, accs) == store(select(old(bal), accs), cc, select(select(bal, accs), cc)) || lateFailure
 //@   # C05: a multisig transaction is accepted only with signatures of pairwise distinct signers
@@ -520,3 +526,98 @@ package transaction
 //@   loop 0 invariant grows: forall c types.CoinID, a types.Address :: bal(accs, c, a) >= old(bal(accs, c, a))
 //@   loop 0 invariant onlygas: select(bal, accs) == store(select(old(bal), accs), tx.GasCoin, select(select(bal, accs), tx.GasCoin))
 //@   loop 0 invariant frame: nonce == old(nonce) && otherState == old(otherState) && rewardPool.val == old(rewardPool.val)
+
+//@ # ---------------------------------------------------------------- C16: coins leave and come back only on schedule
+//@ # Lock: accepted only with a due block after the current one; the coins go into the bucket of exactly that block, as an
+//@ # unlock item (no candidate, no move target) of the sender
+//@ func (LockData).basicCheck
+//@   ensures result != nil ==> result.Code != 0
+//@   modifies coinsCache
+//@ func (LockData).Run
+//@   serves C16 C03 C04 C05 C27 C02
+//@   implements iface Data.Run
+//@   assumes wf: data.Value != nil && data.Value.val >= 0 && data.Value != rewardPool
+//@   assumes typed: tx.Type == TypeLock
+//@   let snd = senderOf(tx)
+//@   let ff = st.FrozenFunds
+//@   let m = ffModel(ff, data.DueBlock)
+//@   let n = old(ffModel(ff, data.DueBlock)) == nil ? 0 : old(len(ffModel(ff, data.DueBlock).List))
+//@   ensures [C16] due: result.Code == 0 ==> data.DueBlock > currentBlock
+//@   ensures [C16] frozen: result.Code == 0 && deliver ==> m != nil && len(m.List) == n + 1 && m.List[n].Address == snd && m.List[n].CandidateKey == nil && m.List[n].Coin == data.Coin && m.List[n].Value == data.Value && len(m.List[n].MoveToCandidate) == 0
+//@   ensures [C16] otherheights: forall h int :: h != data.DueBlock ==> ffModel(ff, h) == old(ffModel(ff, h))
+//@   ensures [C16] kept: result.Code == 0 && deliver ==> forall i int :: 0 <= i && i < n ==> m.List[i] == old(ffModel(ff, data.DueBlock).List[i])
+//@   ensures [C02] debited: result.Code == 0 && deliver && tx.GasCoin == 0 && data.Coin != 0 ==> bal(accs, data.Coin, snd) == old(bal(accs, data.Coin, snd)) - data.Value.val && bal(accs, 0, snd) == old(bal(accs, 0, snd)) - old(price.val)
+//@   covers delivered: result.Code == 0 && deliver && tx.GasCoin == 0 && data.Coin != 0
+//@   loop 0 invariant grows: forall c types.CoinID, a types.Address :: bal(accs, c, a) >= old(bal(accs, c, a))
+//@   loop 0 invariant frame: nonce == old(nonce) && otherState == old(otherState) && rewardPool.val == old(rewardPool.val) && ffModel == old(ffModel) && allof(frozenfunds.Model.List) == old(allof(frozenfunds.Model.List))
+
+//@ # unbond / move periods of the network (mainnet values from the protocol description; testnet values in brackets)
+//@ spec unbondPeriod() int = types.CurrentChainID == types.ChainTestnet ? 531 : 518400
+//@ spec movePeriod() int = types.CurrentChainID == types.ChainTestnet ? 177 : 134400
+
+//@ # validity tests of unbond: pure with respect to every module (only lazy caches may fill)
+//@ func (UnbondDataV3).basicCheck
+//@   serves C03 C16
+//@   requires tx != nil && context != nil && context.state != nil && context.state.Coins != nil && context.state.Waitlist != nil && context.state.Candidates != nil && data.Value != nil
+//@   requires senderKnown(tx)
+//@   ensures failcode: result != nil ==> result.Code != 0
+//@   ensures present: result == nil && wlItem(context.state.Waitlist, senderOf(tx), data.PubKey, data.Coin) == nil ==> stakeObj(context.state.Candidates, data.PubKey, senderOf(tx), data.Coin) != nil
+//@   ensures presentmore: result == nil && wlItem(context.state.Waitlist, senderOf(tx), data.PubKey, data.Coin) != nil && data.Value.val > wlItem(context.state.Waitlist, senderOf(tx), data.PubKey, data.Coin).Value.val ==> stakeObj(context.state.Candidates, data.PubKey, senderOf(tx), data.Coin) != nil
+//@   ensures stillknown: senderKnown(tx)
+//@   modifies coinsCache, wlCache, candCache, senderKnown(tx)
+
+//@ # C16: an unbond is refused while the sender's stake is locked; an accepted one leaves the stake (or waitlist) and
+//@ # enters the bucket of exactly currentBlock + unbond period as an unbond item of the sender (never a move)
+//@ func (UnbondDataV3).Run
+//@   serves C16 C03 C04 C05 C27
+//@   implements iface Data.Run
+//@   assumes wf: data.Value != nil && data.Value.val >= 0 && data.Value != rewardPool
+//@   assumes typed: tx.Type == TypeUnbond
+//@   assumes nowrap: currentBlock + unbondPeriod() <= 18446744073709551615
+//@   let snd = senderOf(tx)
+//@   let ff = st.FrozenFunds
+//@   let due = currentBlock + unbondPeriod()
+//@   let m = ffModel(ff, due)
+//@   let n = old(ffModel(ff, due)) == nil ? 0 : old(len(ffModel(ff, due).List))
+//@   ensures [C16] lockedstake: old(lockUntil(accs, snd)) > currentBlock ==> result.Code != 0
+//@   ensures [C16] frozen: result.Code == 0 && deliver ==> m != nil && len(m.List) == n + 1 && m.List[n].Address == snd && m.List[n].Coin == data.Coin && m.List[n].Value == data.Value && len(m.List[n].MoveToCandidate) == 0
+//@   ensures [C16] otherheights: forall h int :: h != due ==> ffModel(ff, h) == old(ffModel(ff, h))
+//@   ensures [C16] kept: result.Code == 0 && deliver ==> forall i int :: 0 <= i && i < n ==> m.List[i] == old(ffModel(ff, due).List[i])
+//@   covers delivered: result.Code == 0 && deliver && tx.GasCoin == 0
+//@   loop 0 invariant grows: forall c types.CoinID, a types.Address :: bal(accs, c, a) >= old(bal(accs, c, a))
+//@   loop 0 invariant frame: nonce == old(nonce) && otherState == old(otherState) && rewardPool.val == old(rewardPool.val) && ffModel == old(ffModel) && allof(frozenfunds.Model.List) == old(allof(frozenfunds.Model.List)) && stakeObj == old(stakeObj) && allof(candidates.stake.Value) == old(allof(candidates.stake.Value)) && wlItem == old(wlItem)
+
+//@ # validity tests of a stake move: pure with respect to every module; the target must be a live candidate (C16)
+//@ func (MoveStakeData).basicCheck
+//@   serves C03 C16
+//@   requires tx != nil && context != nil && context.state != nil && context.state.Coins != nil && context.state.Waitlist != nil && context.state.Candidates != nil && data.Value != nil
+//@   requires senderKnown(tx)
+//@   ensures failcode: result != nil ==> result.Code != 0
+//@   ensures [C16] targetexists: result == nil ==> candExists(context.state.Candidates, data.ToPubKey)
+//@   ensures present: result == nil && wlItem(context.state.Waitlist, senderOf(tx), data.FromPubKey, data.Coin) == nil ==> stakeObj(context.state.Candidates, data.FromPubKey, senderOf(tx), data.Coin) != nil
+//@   ensures presentmore: result == nil && wlItem(context.state.Waitlist, senderOf(tx), data.FromPubKey, data.Coin) != nil && data.Value.val > wlItem(context.state.Waitlist, senderOf(tx), data.FromPubKey, data.Coin).Value.val ==> stakeObj(context.state.Candidates, data.FromPubKey, senderOf(tx), data.Coin) != nil
+//@   ensures stillknown: senderKnown(tx)
+//@   modifies coinsCache, wlCache, candCache, senderKnown(tx)
+
+//@ # C16: an accepted move leaves the stake (or waitlist) and enters the bucket of exactly currentBlock + move period as a
+//@ # move item whose target is the id of a candidate that exists (so it can only ever be delegated, never paid out)
+//@ func (MoveStakeData).Run
+//@   serves C16 C03 C04 C05 C27
+//@   implements iface Data.Run
+//@   assumes wf: data.Value != nil && data.Value.val >= 0 && data.Value != rewardPool
+//@   assumes typed: tx.Type == TypeMoveStake
+//@   assumes nowrap: currentBlock + movePeriod() <= 18446744073709551615
+//@   let snd = senderOf(tx)
+//@   let ff = st.FrozenFunds
+//@   let due = currentBlock + movePeriod()
+//@   let m = ffModel(ff, due)
+//@   let n = old(ffModel(ff, due)) == nil ? 0 : old(len(ffModel(ff, due).List))
+//@   ensures [C16] targetexists: result.Code == 0 ==> candExists(st.Candidates, data.ToPubKey)
+//@   ensures [C16] frozen: result.Code == 0 && deliver ==> m != nil && len(m.List) == n + 1 && m.List[n].Address == snd && m.List[n].Coin == data.Coin && m.List[n].Value == data.Value && m.List[n].CandidateID == candID(st.Candidates, data.FromPubKey)
+//@   ensures [C16] ismove: result.Code == 0 && deliver ==> len(m.List[n].MoveToCandidate) == 1 && m.List[n].MoveToCandidate[0] == candID(st.Candidates, data.ToPubKey)
+//@   ensures [C16] realtarget: result.Code == 0 && deliver ==> candID(st.Candidates, data.ToPubKey) != 0
+//@   ensures [C16] otherheights: forall h int :: h != due ==> ffModel(ff, h) == old(ffModel(ff, h))
+//@   ensures [C16] kept: result.Code == 0 && deliver ==> forall i int :: 0 <= i && i < n ==> m.List[i] == old(ffModel(ff, due).List[i])
+//@   covers delivered: result.Code == 0 && deliver && tx.GasCoin == 0
+//@   loop 0 invariant grows: forall c types.CoinID, a types.Address :: bal(accs, c, a) >= old(bal(accs, c, a))
+//@   loop 0 invariant frame: nonce == old(nonce) && otherState == old(otherState) && rewardPool.val == old(rewardPool.val) && ffModel == old(ffModel) && allof(frozenfunds.Model.List) == old(allof(frozenfunds.Model.List)) && stakeObj == old(stakeObj) && allof(candidates.stake.Value) == old(allof(candidates.stake.Value)) && wlItem == old(wlItem)
